@@ -1048,7 +1048,7 @@ func (f *FuncCtx) loopAssignsGhost(nodes []ast.Node, g string, env *Env) bool {
 			if i := strings.Index(lhs, "["); i >= 0 {
 				lhs = lhs[:i]
 			}
-			if strings.TrimSpace(lhs) == g && f.loopCalls(nodes, callee, env) {
+			if strings.TrimSpace(lhs) == g && f.loopCalls(nodes, strings.TrimPrefix(callee, "after:"), env) {
 				return true
 			}
 		}
@@ -1347,7 +1347,15 @@ func (f *FuncCtx) rangeStmt(s *ast.RangeStmt, env *Env, fl *flow, label string) 
 
 // afterStmt proves and then assumes the 'after <callee>: e' stepping stones attached to calls in this statement.
 func (f *FuncCtx) afterStmt(s ast.Stmt, env *Env) {
-	if f.C == nil || len(f.C.After) == 0 || f.fr == nil || f.fr.depth != 0 || env.dead {
+	hasGhostAfter := false
+	if f.C != nil {
+		for k := range f.C.GhostCall {
+			if strings.HasPrefix(k, "after:") {
+				hasGhostAfter = true
+			}
+		}
+	}
+	if f.C == nil || (len(f.C.After) == 0 && !hasGhostAfter) || f.fr == nil || f.fr.depth != 0 || env.dead {
 		return
 	}
 	ast.Inspect(s, func(n ast.Node) bool {
@@ -1359,6 +1367,9 @@ func (f *FuncCtx) afterStmt(s ast.Stmt, env *Env) {
 			return true
 		}
 		text := exprStr(ast.Unparen(c.Fun))
+		for _, cl := range f.C.GhostCall["after:"+text] {
+			f.ghostAssign(cl, map[string]Val{}, &ast.BadStmt{From: s.End(), To: s.End()}, env)
+		}
 		cls, ok := f.C.After[text]
 		if !ok {
 			return true
